@@ -55,6 +55,18 @@ def simplify_units(repo, cs, pid):
             [(PFILE, 'Instantiate.simplify')])
 
 
+EQ_PRELUDE = '''
+def _eq2(a, b):
+    # the same comparison also with the notation definition OBJECT shared between both sides (as Notation.__call__ produces it): identity shortcuts must not change the answer
+    r1 = (a == b)
+    if type(a).__name__ == 'Instantiate' and type(b).__name__ == 'Instantiate' and repr(a.pattern) == repr(b.pattern):
+        r2 = (a == type(b)(a.pattern, b.inst))
+        if r2 != r1:
+            return r2
+    return r1
+'''
+
+
 def eq_units(repo, cs, pid):
     units, targets, fns = [], {}, []
     ceq = cs['Pattern.__eq__']
@@ -76,7 +88,7 @@ def eq_units(repo, cs, pid):
     for cn in PCTORS:
         name = f'{pid}/py/{cn}.__eq__'
         units.append(Unit(name, mk(cn)))
-        targets[name] = FnTarget(PM, f'{cn}.__eq__', ceq, arm=cn, call=lambda ax: f"({ax['self']}) == ({ax['o']})",
+        targets[name] = FnTarget(PM, f'{cn}.__eq__', ceq, arm=cn, call=lambda ax: f"_eq2(({ax['self']}), ({ax['o']}))", prelude=EQ_PRELUDE,
                                  enum=eq_enum(cn))
         fns.append((PFILE, f'{cn}.__eq__ (dataclass-generated unless Instantiate)'))
     return units, targets, fns
